@@ -113,13 +113,24 @@ def mk_callable(dep, argname):
     """a Python callable of one non-default argument `argname` returning the value described by dep"""
     entries, shape = dep["entries"], dep.get("shape")
 
+    style = dep.get("style")
+    work = np.zeros(shape) if (shape is not None and style == "buffer") else None
+
     def _f(s):
         if isinstance(s, np.ndarray) and s.size > 1 and shape is None:      # a lambda like `lambda s: 1/s` acts elementwise
             return np.array([d_float(entries[0], float(si)) for si in np.ravel(s)])
         s = float(np.ravel(s)[0]) if isinstance(s, np.ndarray) else float(s)
         if shape is None:
             return d_float(entries[0], s)
-        return np.array([d_float(e, s) for e in entries]).reshape(shape)
+        val = np.array([d_float(e, s) for e in entries]).reshape(shape)
+        if style == "buffer":               # the user's callable fills and returns the SAME work array on every call
+            work[...] = val
+            return work
+        if style == "fortran":              # ... or returns a Fortran-contiguous result
+            return np.asfortranarray(val)
+        if style == "transposed-view":      # ... or a non-contiguous view
+            return np.ascontiguousarray(val.T).T
+        return val
     return eval("lambda %s: _f(%s)" % (argname, argname), {"_f": _f})
 
 
@@ -138,7 +149,7 @@ def fvec(l):
     return np.array([float(Fraction(x)) for x in l], dtype=float)
 
 
-GAMMA_DECLS_DIM1 = ["scalars", "len1_arrays", "np_scalar", "py_int", "geometry_1", "list1"]
+GAMMA_DECLS_DIM1 = ["scalars", "len1_arrays", "np_scalar", "py_int", "int_arrays", "geometry_1", "list1"]
 GAMMA_DECLS_DIMK = ["arrays", "geometry_int", "geometry_obj", "shape_vec", "rate_vec", "len1_geometry_k"]
 
 
@@ -148,11 +159,14 @@ def build_gamma(pr, pname):
     import cuqi
     from cuqi.distribution import Gamma
     a, b, k = float(Fraction(pr["alpha"])), float(Fraction(pr["beta"])), pr.get("dim", 1)
+    if pr.get("subclass"):
+        Gamma = type("MyGamma", (Gamma,), {})
     decl = pr.get("decl") or ("scalars" if k == 1 else "arrays")
     if decl == "scalars": g = Gamma(a, b, name=pname)
     elif decl == "len1_arrays": g = Gamma(np.array([a]), np.array([b]), name=pname)
     elif decl == "np_scalar": g = Gamma(np.float64(a), np.float64(b), name=pname)
     elif decl == "py_int": g = Gamma(int(a), int(b), name=pname)
+    elif decl == "int_arrays": g = Gamma(np.array([int(a)]), np.array([int(b)]), name=pname)          # integer-dtype parameters (scale = 1/rate)
     elif decl == "geometry_1": g = Gamma(a, b, geometry=1, name=pname)
     elif decl == "list1": g = Gamma([a], [b], name=pname)
     elif decl == "zero_d": g = Gamma(np.array(a), np.array(b), name=pname)      # 0-d arrays: Distribution.dim itself raises IndexError
@@ -222,9 +236,13 @@ def _build_target(spec):
     for v2, dep2 in (spec.get("more_deps") or {}).items():
         kw[v2] = mk_callable(dep2, argname)
     route = spec.get("route", "direct")
+    if spec.get("subclass"):            # user subclasses of the supported classes (dispatch must be by isinstance)
+        Gaussian = type("MyGaussian", (Gaussian,), {})
+        GMRF = type("MyGMRF", (GMRF,), {})
+        RegularizedGaussian = type("MyRegularizedGaussian", (RegularizedGaussian,), {})
     with QUIET:
         if route == "joint" and fam in ("gaussian",):
-            A = np.array(spec["A"], dtype=float)
+            A = np.array(spec["A"], dtype=int if spec.get("A_int") else float)
             xd = Gaussian(np.zeros(A.shape[1]), 1.0, name="x")
             mean_arg = cuqi.model.LinearModel(A)(xd)
         else:
@@ -543,6 +561,21 @@ def sample_cases(ctx, spec, iface, cell, reuse=None):
             ra = spec["reassign"]
             target.prior.shape = float(Fraction(ra["alpha"])); target.prior.rate = float(Fraction(ra["beta"]))
             spec = dict(spec, prior=dict(spec["prior"], alpha=ra["alpha"], beta=ra["beta"]))
+        sib = None
+        if spec.get("siblings"):
+            # other conditioned instances of the same distribution alive at the same time (shallow copies share inner objects):
+            # one created BEFORE the draw and evaluated after it
+            with QUIET:
+                sib = target.likelihood.distribution(np.array([7.0]))
+            sibL0 = np.array(sib.sqrtprec.todense() if hasattr(sib.sqrtprec, "todense") else sib.sqrtprec, dtype=float).copy()
+        if spec.get("inplace_update"):
+            # aliasing over time: draw once, then the caller overwrites the data (and mean) arrays IN PLACE, then draws again
+            draw(iface, sampler)
+            arr = target.likelihood.data
+            arr[...] = fvec(spec["inplace_update"]["data"])
+            if spec["inplace_update"].get("mean") is not None:
+                target.likelihood.distribution.mean[...] = fvec(spec["inplace_update"]["mean"])
+            spec = dict(spec, data=spec["inplace_update"]["data"], mean=spec["inplace_update"].get("mean") or spec["mean"])
         if spec.get("legacy_step_x") is not None and iface == "legacy":
             with GammaTrap() as tr, QUIET:
                 val = sampler.step(x=np.array([float(Fraction(spec["legacy_step_x"]))]))
@@ -552,11 +585,26 @@ def sample_cases(ctx, spec, iface, cell, reuse=None):
         dist = target.likelihood.distribution
         with QUIET:
             d1 = dist(np.array([1]))
-    b = [frac(x) for x in np.asarray(target.likelihood.data, dtype=float)]
-    Ax = [frac(x) for x in np.ravel(np.asarray(d1.mean, dtype=float))]
+            if sib is not None:
+                sib2 = target.likelihood.distribution(np.array([7.0]))
+        sib_ok = True
+        if sib is not None:
+            as_d = lambda M_: np.array(M_.todense() if hasattr(M_, "todense") else M_, dtype=float)
+            sib_ok = bool(np.array_equal(as_d(sib.sqrtprec), sibL0) and np.allclose(as_d(sib2.sqrtprec), sibL0, rtol=1e-12, atol=0)
+                          and np.allclose(sibL0, math.sqrt(7.0) * as_d(d1.sqrtprec), rtol=1e-9, atol=1e-12))
+    # data and forward-model output as the CONSTRUCTION DATA say (exact rationals) -- not read back from the object
+    b = [Fraction(x) for x in spec["data"]]
+    if spec.get("route") == "joint" and spec["family"] == "gaussian":
+        Ax = [sum(Fraction(a) * Fraction(xv) for a, xv in zip(row, spec["xv"])) for row in spec["A"]]
+    elif spec.get("route") == "joint":
+        Ax = [Fraction(0)] * len(b)
+    else:
+        Ax = [Fraction(x) for x in spec["mean"]]
     if len(Ax) == 1 and len(b) > 1:
         Ax = Ax * len(b)
     n = len(b)
+    obj_ok = ([frac(x) for x in np.asarray(target.likelihood.data, dtype=float)] == b
+              and [frac(x) for x in np.broadcast_to(np.ravel(np.asarray(d1.mean, dtype=float)), (n,))] == Ax)
     L = d1.sqrtprec
     L = np.asarray(L.todense() if hasattr(L, "todense") else L, dtype=float)
     fam = spec["family"]
@@ -576,7 +624,7 @@ def sample_cases(ctx, spec, iface, cell, reuse=None):
     m_code = sum(1 for x in b if x != 0) if fam.startswith("reg") else n
     ok_call = ga is not None and ncalls == 1
     shape_obs, scale_obs, size = ga if ga else (float("nan"), float("nan"), None)
-    ok_val = ok_call and float(np.ravel(np.asarray(val, dtype=float))[0]) == scripted and np.size(val) == 1 and acc == 1
+    ok_val = ok_call and float(np.ravel(np.asarray(val, dtype=float))[0]) == scripted and np.size(val) == 1 and acc == 1 and sib_ok and obj_ok
     meta = {"op": "sample", "iface": iface, "spec": spec}
     cases = []
     if not ok_call:
@@ -595,7 +643,19 @@ def sample_cases(ctx, spec, iface, cell, reuse=None):
     # --- shape
     fail, sig = None, ""
     if not ok_val:
-        fail, sig = "returned value %r is not the scripted gamma draw %r (or acceptance != 1)" % (val, scripted), "%s|%s|returned-value" % (site(iface), fam)
+        fail = "returned value %r is not the scripted gamma draw %r, or acceptance != 1, or a sibling conditioned instance changed (%s), or the object does not hold the data/mean it was given (%s)" % (val, scripted, sib_ok, obj_ok)
+        sig = "%s|%s|returned-value-or-object-state" % (site(iface), fam)
+    name_clash = spec["prior"].get("name") in ("mean", "location") and spec.get("var") not in ("mean", "location")
+    if name_clash and orc and (orc["form_fail"] or orc["shape_fail"] or orc["rate_fail"] or not obj_ok):
+        # C01's open finding Distribution._condition|keyword-names-attribute-and-variable seen from C10: the hyper-parameter is named like
+        # ANOTHER mutable attribute (mean), conditioning overwrites that attribute, the target is no longer the conjugate model -- and the
+        # sampler, which looks at callables only, accepts and samples it
+        fail = ("hyper-parameter named %r: conditioning also overwrites the attribute of that name, the target's own density is then not the one the "
+                "Gamma is the conditional of (%s)" % (spec["prior"]["name"], orc["form_fail"] or orc["shape_fail"] or orc["rate_fail"] or "unit distribution's mean differs from the given mean"))
+        sig = "%s|hyperparameter-named-like-another-attribute" % site(iface)
+        ok_val = True
+    elif not ok_val:
+        pass
     elif orc and (orc["form_fail"] or orc["shape_fail"]):
         fail = (orc["form_fail"] or orc["shape_fail"]) + " [" + orc["how"] + "]"
         sig = sig_shape(iface, spec, shape_obs, orc["k"], m_code, rank) if not orc["form_fail"] else "%s|%s|target-not-gamma-form" % (site(iface), fam)
@@ -608,8 +668,11 @@ def sample_cases(ctx, spec, iface, cell, reuse=None):
     expr = "check_shape %s %s %s %s %s && %s && %s" % (lik_kind(fam), model_rank, cqvec(b), cq(alpha), cq(shape_obs), rank_ok, cbool(ok_val))
     cases.append(Case(expr=expr, meta=dict(meta, part="shape"), cell=cell + "/shape", kind="EXACT", impl_fail=fail, signature=sig))
     # --- rate
+    clash_fail, clash_sig = (fail, sig) if (name_clash and sig.endswith("hyperparameter-named-like-another-attribute")) else (None, "")
     fail, sig = None, ""
-    if orc and not orc["form_fail"] and orc["rate_fail"]:
+    if clash_fail:
+        fail, sig = clash_fail, clash_sig
+    elif orc and not orc["form_fail"] and orc["rate_fail"]:
         fail = orc["rate_fail"] + " [" + orc["how"] + "]"
         sig = sig_rate(iface, spec, rate_obs, orc["r"], v2)
     expr = "check_rate %s %s %s %s %s %s %s %s %s" % (cnat(n), cqmat(P), cq(reg), cqmat(L), cqvec(Ax), cqvec(b), cq(beta),
@@ -630,6 +693,8 @@ def sample_cases(ctx, spec, iface, cell, reuse=None):
         # dense full matrix (legacy only): the homogeneous form with the implementation's factor at unit hyper-parameter, whose law
         # L^T L = P_ref (P_ref computed by the harness in exact rationals) is checked by the rate case of the same draw
         form = "lik_gauss_homog %s 0 %s %s %s" % (cnat(n), crmat(L), crvec(Ax), crvec(b))
+    if name_clash:
+        form = None
     if form:
         s1, s2 = ctx.rng.choice([(2, 1), (4, 1), (3, 2), (Fraction(1, 2), 2), (4, Fraction(1, 2))])
         with QUIET, cfg(spec):
@@ -707,12 +772,12 @@ def gen_sample_specs(ctx):
                 m = 1 if form == "cov_recip" else rng.randint(2, 5)
                 pr = prior()
                 pr["decl"] = decl
-                if decl == "py_int":
+                if decl in ("py_int", "int_arrays"):
                     pr["alpha"], pr["beta"] = str(rng.randint(1, 4)), str(rng.randint(1, 3))
                 out.append(({"family": "gaussian", "m": m, "prior": pr, "route": "direct", "var": var, "dep": dep, "data": vec(m), "mean": vec(m)},
                             iface, "gaussian/%s/prior-decl:%s/%s" % (form, decl, iface)))
             pr = prior(); pr["decl"] = decl
-            if decl == "py_int":
+            if decl in ("py_int", "int_arrays"):
                 pr["alpha"], pr["beta"] = "3", "2"
             m = rng.randint(2, 5)
             out.append(({"family": "gmrf", "m": m, "N": None, "two_d": False, "bc": "zero", "order": 1, "var": "prec", "dep": scalar_dep(V()),
@@ -839,6 +904,67 @@ def gen_sample_specs(ctx):
                         iface, "%s/%s/zero-data/%s" % (fam, extra["var"], iface)))
             out.append((dict({"family": fam, "m": m, "prior": prior(), "route": "direct", "data": ["0"] * m, "mean": ["0"] * m}, **extra),
                         iface, "%s/%s/zero-data-zero-mean/%s" % (fam, extra["var"], iface)))
+    # ---- round-4 lessons -------------------------------------------------------------------------------------------------
+    G_PREC = ("gaussian", {"var": "prec", "dep": scalar_dep(V())})
+    G_COV = ("gaussian", {"var": "cov", "dep": scalar_dep(Inv(V()))})
+    F_ZERO = ("gmrf", {"var": "prec", "dep": scalar_dep(V()), "bc": "zero", "order": 1, "N": None, "two_d": False})
+    F_NEU = ("gmrf", {"var": "prec", "dep": scalar_dep(V()), "bc": "neumann", "order": 2, "N": None, "two_d": False})
+    R_G = ("reggaussian", {"var": "prec", "dep": scalar_dep(V()), "preset": "nonnegativity", "bc": "zero", "order": 1})
+    R_F = ("reggmrf", {"var": "prec", "dep": scalar_dep(V()), "preset": "nonnegativity", "bc": "zero", "order": 1})
+
+    def mk(fam, extra, m=None, nonneg=False, **more):
+        m = m or rng.randint(3, 5)
+        data = vec(m, nonneg)
+        if nonneg:
+            data = [str(abs(Fraction(x))) for x in data]
+        return dict({"family": fam, "m": m, "prior": prior(), "route": "direct", "data": data, "mean": ["0"] * m if fam.endswith("gmrf") else vec(m)}, **extra, **more)
+    for iface in ["exp", "legacy"]:
+        for fam, extra in [G_PREC, G_COV, F_ZERO, F_NEU, R_G, R_F]:
+            reg = fam.startswith("reg")
+            # L15 aliasing over time: the caller overwrites the data (and mean) arrays in place between two draws
+            sp = mk(fam, extra, nonneg=reg)
+            newd = vec(sp["m"], reg)
+            newd = [str(abs(Fraction(x))) for x in newd] if reg else newd
+            sp["inplace_update"] = {"data": newd, "mean": None if fam.endswith("gmrf") else vec(sp["m"])}
+            out.append((sp, iface, "%s/inplace-overwrite/%s" % (fam, iface)))
+            # L25 shallow copies: sibling conditioned instances alive around the draw
+            out.append((mk(fam, extra, nonneg=reg, siblings=True), iface, "%s/sibling-instances/%s" % (fam, iface)))
+            # L23 subclass dispatch: user subclasses of the distribution classes and of Gamma
+            sp = mk(fam, extra, nonneg=reg, subclass=True)
+            sp["prior"]["subclass"] = True
+            out.append((sp, iface, "%s/user-subclasses/%s" % (fam, iface)))
+            # L26 large common offset of data and mean (the residual is what matters)
+            sp = mk(fam, extra, nonneg=reg)
+            if not fam.endswith("gmrf"):
+                off = Fraction(2) ** 20 + Fraction(rng.getrandbits(28) | 1, 2 ** 30)      # a 50-bit common offset: squares are NOT exact in binary64
+                sp["data"] = [str(Fraction(x) + off) for x in sp["data"]]; sp["mean"] = [str(Fraction(x) + off) for x in sp["mean"]]
+                out.append((sp, iface, "%s/offset2^20/%s" % (fam, iface)))
+        # L17 name coincidences: the hyper-parameter is called like the attribute it enters (or like another attribute)
+        for pname in ["prec", "cov", "mean", "sqrtprec", "scale", "shape", "rate", "x"]:
+            for fam, extra in [G_PREC, G_COV, F_ZERO]:
+                sp = mk(fam, extra)
+                sp["prior"]["name"] = pname
+                out.append((sp, iface, "%s/%s/hyperparameter-named:%s/%s" % (fam, extra["var"], pname, iface)))
+        # L18 exact zeros inside generic data: zero entries of the mean / residual, block-decoupled dense matrices
+        for fam, extra in [G_PREC, G_COV, F_ZERO]:
+            sp = mk(fam, extra, m=4)
+            if fam == "gaussian":
+                sp["mean"] = ["0", "2", "0", "-3/2"]
+            sp["data"] = [sp["mean"][0], "5/4", sp["mean"][2] if fam == "gaussian" else "0", "-2"]      # exact zero residual entries
+            out.append((sp, iface, "%s/%s/zero-entries/%s" % (fam, extra["var"], iface)))
+        # L20 integer forward matrix / L19 callables returning work buffers, Fortran arrays, views
+        spj = {"family": "gaussian", "m": 3, "prior": prior(), "route": "joint", "var": "cov", "dep": scalar_dep(Inv(V())), "data": vec(3), "mean": ["0"] * 3,
+               "A": [[1, 2], [0, -1], [3, 1]], "xv": ["1/2", "-1"], "A_int": True}
+        out.append((spj, iface, "gaussian/cov_recip/joint-int-matrix/" + iface))
+        for style in ["buffer", "fortran", "transposed-view"]:
+            m = 3
+            out.append((dict(mk("gaussian", {"var": "prec", "dep": dict(array_dep([V()] * m, (m,)), style=style)}, m=m)), iface, "gaussian/prec_vec/callable:%s/%s" % (style, iface)))
+    for style in ["buffer", "fortran", "transposed-view"]:         # matrix-valued: legacy only
+        for kind in ["cov", "prec"]:
+            m = 4
+            blk = [[Fraction(2), Fraction(1, 2), 0, 0], [Fraction(1, 2), Fraction(1), 0, 0], [0, 0, Fraction(4), Fraction(-1)], [0, 0, Fraction(-1), Fraction(2)]]   # block-decoupled SPD (L18)
+            ent = [Mul(Cn(blk[i][j]), Inv(V()) if kind == "cov" else V()) for i in range(m) for j in range(m)]
+            out.append((mk("gaussian", {"var": kind, "dep": dict(array_dep(ent, (m, m)), style=style)}, m=m), "legacy", "gaussian/%s_full/block-decoupled/callable:%s/legacy" % (kind, style)))
     # regularized (implicit priors have no density of their own: correspondence of (shape, rate) only)
     for fam, var, dep in [("reggaussian", "cov", scalar_dep(Inv(V()))), ("reggaussian", "prec", scalar_dep(V())), ("reggmrf", "prec", scalar_dep(V()))]:
         for iface in ["exp", "legacy"]:
@@ -1152,7 +1278,7 @@ def gen_validation_specs(ctx):
     for fam, var, dep, ifs in pairs:
         for decl in GAMMA_DECLS_DIM1 + GAMMA_DECLS_DIMK:
             k = 1 if decl in GAMMA_DECLS_DIM1 else (4 if decl != "rate_vec" else 3)
-            ab = {"alpha": "2", "beta": "1"} if decl == "py_int" else {}
+            ab = {"alpha": "2", "beta": "1"} if decl in ("py_int", "int_arrays") else {}
             for iface in ifs:
                 m = k if k > 1 else 3
                 kw = {"mean": ["0"]} if fam == "lmrf" else {}
@@ -1160,7 +1286,7 @@ def gen_validation_specs(ctx):
                             "validate/gamma-decl/%s-%s/%s/%s" % (fam, var, decl, iface)))
     # likelihood data of length 1 with the declaration styles of a one-dimensional Gamma
     for decl in GAMMA_DECLS_DIM1:
-        ab = {"alpha": "2", "beta": "1"} if decl == "py_int" else {}
+        ab = {"alpha": "2", "beta": "1"} if decl in ("py_int", "int_arrays") else {}
         for iface in ["exp", "legacy"]:
             out.append((gspec("gaussian", "cov", rec, m=1, prior=base_prior(decl=decl, **ab)), iface, "validate/gamma-decl/data-len1/%s/%s" % (decl, iface)))
     for iface in ["exp", "legacy"]:
@@ -1478,7 +1604,7 @@ def direct_cases(ctx):
                     logs_d.append(list(sr.log))
             last = chain[-1]
             # Sampler.sample(N) under one stream vs N consecutive target.sample() under the same stream
-            N = 3
+            N = [3, 1, 2][rep % 3]          # including exactly one draw (trailing axis of length 1)
             with ScriptedRandom(seed=seeds[0] + 7) as sr, QUIET:
                 ref = [fl(tgt.sample()) for _ in range(N)]
             with QUIET:
@@ -1548,22 +1674,166 @@ def history_cases(ctx):
     return cases
 
 
+def composite_cases(ctx):
+    """the conjugate samplers inside the composites that drive them (L24): one HybridGibbs / legacy Gibbs object over
+    (x ~ GMRF(0, prec=d), y ~ N(Ax, 1/s), d, s ~ Gamma) -- every Gamma drawn in a sweep must be the conditional at the x the
+    sweep has just drawn; and composite targets the samplers must refuse (L16)"""
+    import cuqi
+    from cuqi.distribution import Gaussian, Gamma, GMRF, JointDistribution
+    import cuqi.experimental.mcmc as M, cuqi.sampler as S
+    rng = ctx.rng
+    cases = []
+    for rep in range(ctx.n(2, 6)):
+        nx, ny = rng.randint(2, 4), rng.randint(2, 5)
+        A = [[rng.randint(-2, 2) for _ in range(nx)] for _ in range(ny)]
+        yobs = [dy(rng, -4, 4, 2) for _ in range(ny)]
+        ad, bd, as_, bs = Fraction(rng.choice([2, 3, 25])) / 2 + 1, Fraction(rng.choice([1, 5, 64]), 2), Fraction(rng.choice([3, 7, 40])), Fraction(rng.choice([1, 12, 3]), 1)
+        Pref = [[(2 if i == j else (-1 if abs(i - j) == 1 else 0)) for j in range(nx)] for i in range(nx)]        # zero-bc first-order precision
+        def joint():
+            with QUIET:
+                d = Gamma(float(ad), float(bd), name="d"); s_ = Gamma(float(as_), float(bs), name="s")
+                x = GMRF(np.zeros(nx), prec=lambda d: d, name="x")
+                y = Gaussian(cuqi.model.LinearModel(np.array(A, dtype=float))(x), cov=lambda s: 1 / s, name="y")
+                return JointDistribution(y, x, d, s_)(y=np.array([float(v) for v in yobs]))
+        for kind in ["hybridgibbs", "gibbs"]:
+            calls = []
+
+            def script(k, a, kw, idx):
+                if k == "gamma":
+                    calls.append((float(np.ravel(kw.get("shape", a[0] if a else 0))[0]), float(np.ravel(kw.get("scale", a[1] if len(a) > 1 else 0))[0])))
+                return None
+            xs = []
+            nsw = 2
+            with ScriptedRandom(seed=rng.randint(0, 10 ** 6), script=script), QUIET:
+                if kind == "hybridgibbs":
+                    hg = M.HybridGibbs(joint(), {"x": M.LinearRTO(), "d": M.Conjugate(), "s": M.Conjugate()})
+                    for _ in range(nsw):
+                        hg.step()
+                        xs.append(np.array(hg.current_samples["x"], dtype=float).ravel())
+                else:
+                    g = S.Gibbs(joint(), {"x": S.LinearRTO, "d": S.Conjugate, "s": S.Conjugate})
+                    out = g.sample(nsw, 0)
+                    xs = [np.array(out["x"].samples[:, k], dtype=float) for k in range(nsw)]
+            meta = {"op": "composite", "kind": kind, "A": A, "y": [str(v) for v in yobs], "priors": [str(ad), str(bd), str(as_), str(bs)]}
+            cell = "composite/%s" % kind
+            if len(calls) != 2 * nsw:
+                cases.append(Case(expr="false", meta=dict(meta, note="%d gamma calls in %d sweeps" % (len(calls), nsw)), cell=cell, kind="DECISION"))
+                continue
+            for k in range(nsw):
+                xk = [frac(v) for v in xs[k]]
+                Axk = [sum(Fraction(a) * v for a, v in zip(row, xk)) for row in A]
+                (shd, scd), (shs, scs) = calls[2 * k], calls[2 * k + 1]
+                # independent statement of the two conditionals at the x of this sweep
+                rd = float(sum(xk[i] * Pref[i][j] * xk[j] for i in range(nx) for j in range(nx)) / 2 + bd)
+                rs = float(sum((a - b) ** 2 for a, b in zip(Axk, yobs)) / 2 + bs)
+                fail = None
+                if abs(shd - float(Fraction(nx, 2) + ad)) > 1e-12 or abs(1 / scd - rd) > 1e-9 * rd:
+                    fail = "sweep %d, block d: Gamma(%.9g, rate %.9g) but the conditional at the x of this sweep is Gamma(%.9g, %.9g)" % (k, shd, 1 / scd, float(Fraction(nx, 2) + ad), rd)
+                elif abs(shs - float(Fraction(ny, 2) + as_)) > 1e-12 or abs(1 / scs - rs) > 1e-9 * rs:
+                    fail = "sweep %d, block s: Gamma(%.9g, rate %.9g) but the conditional at the x of this sweep is Gamma(%.9g, %.9g)" % (k, shs, 1 / scs, float(Fraction(ny, 2) + as_), rs)
+                expr = ("check_shape KGMRF %s %s %s %s && check_rate_noL %s %s 0 %s %s %s %s && check_shape KGaussian 0%%nat %s %s %s && check_rate_noL %s %s 0 %s %s %s %s" % (
+                    cnat(nx), cqvec(xk), cq(ad), cq(shd), cnat(nx), cqmat(Pref), cqvec([0] * nx), cqvec(xk), cq(bd), cq(Fraction(1) / frac(scd)),
+                    cqvec(yobs), cq(as_), cq(shs), cnat(ny), cqmat([[int(i == j) for j in range(ny)] for i in range(ny)]), cqvec(Axk), cqvec(yobs), cq(bs), cq(Fraction(1) / frac(scs))))
+                cases.append(Case(expr=expr, meta=dict(meta, sweep=k), cell=cell, kind="EXACT", impl_fail=fail,
+                                  signature="%s|conjugate-block-not-the-conditional-at-current-state" % kind if fail else ""))
+    # L16: a posterior with two likelihoods sharing the hyper-parameter is not a supported structure
+    with QUIET:
+        s_ = Gamma(2.0, 1.0, name="s")
+        y1 = Gaussian(np.zeros(2), cov=lambda s: 1 / s, name="y1"); y2 = Gaussian(np.ones(3), cov=lambda s: 1 / s, name="y2")
+        T = JointDistribution(y1, y2, s_)(y1=np.ones(2), y2=np.zeros(3))
+    for iface in ["exp", "legacy"]:
+        try:
+            smp = construct(iface, T)
+            refused = False
+        except Exception as e:
+            refused, et = True, type(e).__name__
+        ok = refused
+        cases.append(Case(expr=cbool(ok) if iface == "legacy" else "check_validate IExp {| t_is_posterior := false; t_lik := KGaussian; t_prior := KGamma; t_prior_dim := 1%%nat; t_par_name := \"s\"; t_mutable := []; t_preset_nonneg := true; t_location_sum_zero := true |} (%s)" % ("Reject RNotPosterior" if refused and et == "TypeError" else 'Accept ""'),
+                          meta={"op": "composite-refusal", "iface": iface}, cell="composite/multiple-likelihood/" + iface, kind="DECISION",
+                          impl_fail=None if ok else "a MultipleLikelihoodPosterior (two likelihoods sharing the hyper-parameter) was accepted",
+                          signature="" if ok else "%s|multiple-likelihood-accepted" % site(iface)))
+    return cases
+
+
+def default_size_cases(ctx):
+    """the shipped defaults (L22): Deconvolution1D() as it comes (dim 128 > MIN_DIM_SPARSE: sparse branches, default PSF), hierarchical
+    noise precision s and GMRF prior precision d"""
+    import cuqi
+    from cuqi.distribution import Gaussian, Gamma, GMRF, JointDistribution
+    cases = []
+    with QUIET:
+        TP = cuqi.testproblem.Deconvolution1D()
+        n = TP.model.domain_dim
+        x0 = np.asarray(TP.exactSolution, dtype=float)
+        ydat = np.asarray(TP.data, dtype=float)
+        Ax0 = np.asarray(TP.model.forward(x0), dtype=float)
+    P = [[(2 if i == j else (-1 if abs(i - j) == 1 else 0)) for j in range(n)] for i in range(n)]
+    for iface in ["exp", "legacy"]:
+        for block in ["s", "d"]:
+            with QUIET:
+                d = Gamma(1.0, 1e-4, name="d"); s_ = Gamma(1.0, 1e-4, name="s")
+                x = GMRF(np.zeros(n), prec=lambda d: d, name="x")
+                y = Gaussian(TP.model(x), cov=lambda s: 1 / s, name="y")
+                J = JointDistribution(y, x, d, s_)
+                T = J(y=ydat, x=x0, d=np.array([50.0])) if block == "s" else J(y=ydat, x=x0, s=np.array([400.0]))
+                smp = construct(iface, T)
+            val, ga, ncalls, scripted, acc = draw(iface, smp)
+            meta = {"op": "default-size", "iface": iface, "block": block}
+            cell = "default-size/deconvolution1d/%s/%s" % (block, iface)
+            if ga is None:
+                cases.append(Case(expr="false", meta=meta, cell=cell, kind="DECISION")); continue
+            beta = frac(1e-4)
+            if block == "s":
+                v = Ax0 - ydat
+                rref = 0.5 * float(v @ v) + 1e-4
+                expr = "check_shape KGaussian 0%%nat %s 1 %s && q_rel tol9 %s ((1 # 2) * qdotq %s %s + %s)" % (
+                    cqvec(ydat), cq(ga[0]), cq(Fraction(1) / frac(ga[1])), cqvec(v), cqvec(v), cq(beta))
+            else:
+                rref = 0.5 * float(x0 @ (np.array(P, dtype=float) @ x0)) + 1e-4
+                # x^T P x for the zero-bc first-order precision (tridiagonal 2, -1) written out: 2 sum x_i^2 - 2 sum x_i x_(i+1)
+                # (a dense 128 x 128 rational matrix product would take minutes on a loaded machine)
+                expr = "check_shape KGMRF %s %s 1 %s && q_rel tol9 %s ((1 # 2) * (2 * qdotq %s %s - 2 * qdotq (List.tl %s) %s) + %s)" % (
+                    cnat(n), cqvec(x0), cq(ga[0]), cq(Fraction(1) / frac(ga[1])), cqvec(x0), cqvec(x0), cqvec(x0), cqvec(x0), cq(beta))
+            fail = None
+            if abs(ga[0] - (n / 2 + 1.0)) > 1e-12 or abs(1 / ga[1] - rref) > 1e-9 * rref:
+                fail = "default Deconvolution1D (dim %d), block %s: Gamma(%.9g, rate %.9g) but the conditional is Gamma(%.9g, %.9g)" % (n, block, ga[0], 1 / ga[1], n / 2 + 1.0, rref)
+            cases.append(Case(expr=expr, meta=meta, cell=cell, kind="EXACT", impl_fail=fail, signature="%s|default-size-not-the-conditional" % site(iface) if fail else ""))
+    return cases
+
+
 # ------------------------------------------------------------------------------------------------------
 # run
 # ------------------------------------------------------------------------------------------------------
 def run(ctx):
     import cuqi
+    flt0 = os.environ.get("VERIF_C10_CELLS")      # development aid for mutation self-tests only (see below)
+    want = (lambda cell: True) if not flt0 else (lambda cell: re.search(flt0, cell) is not None)
     cases = []
     for spec, iface, cell in gen_sample_specs(ctx):
-        cases += sample_cases(ctx, spec, iface, cell)
-    cases += history_cases(ctx)
+        if want(cell):
+            cases += sample_cases(ctx, spec, iface, cell)
+    if not flt0 or want("history/") or re.search(r"[a-z]", flt0):      # family-level: generated whenever a filter might concern it
+        cases += history_cases(ctx)
+    if not flt0 or want("composite/") or re.search(r"[a-z]", flt0):      # family-level: generated whenever a filter might concern it
+        cases += composite_cases(ctx)
+    if not flt0 or want("default-size/") or re.search(r"[a-z]", flt0):      # family-level: generated whenever a filter might concern it
+        cases += default_size_cases(ctx)
     for spec, iface, st, cell in gen_retarget_specs(ctx):
-        cases += retarget_case(ctx, spec, iface, st, cell)
+        if want(cell):
+            cases += retarget_case(ctx, spec, iface, st, cell)
     for spec, iface, cell in gen_validation_specs(ctx):
-        cases += validation_case(ctx, spec, iface, cell)
-    cases += probe_cases(ctx)
-    cases += approx_cases(ctx)
-    cases += direct_cases(ctx)
+        if want(cell):
+            cases += validation_case(ctx, spec, iface, cell)
+    if not flt0 or want("probe/") or re.search(r"[a-z]", flt0):      # family-level: generated whenever a filter might concern it
+        cases += probe_cases(ctx)
+    if not flt0 or want("approx/") or re.search(r"[a-z]", flt0):      # family-level: generated whenever a filter might concern it
+        cases += approx_cases(ctx)
+    if not flt0 or want("direct/") or re.search(r"[a-z]", flt0):      # family-level: generated whenever a filter might concern it
+        cases += direct_cases(ctx)
+    flt = os.environ.get("VERIF_C10_CELLS")      # development aid for mutation self-tests only: keep the cells matching a regex
+    if flt:
+        cases = [c for c in cases if re.search(flt, c.cell)]
+        ctx.note("VERIF_C10_CELLS=%r: %d cases kept (development filter; not a full check)" % (flt, len(cases)))
     return Result(cases=cases, rule=RULE,
                   assumptions=["numpy.random.gamma(shape, scale) draws from the Gamma density with those parameters (law of the generator: oracle, not proved)",
                                "the implementation's sqrtprec at unit hyper-parameter is a certificate: its law L^T L = P (+ 2^-26 I) is checked per case over Q within 1e-9",
@@ -1614,6 +1884,20 @@ def known_witnesses(ctx):
         res["legacy.ConjugateApprox|nonscalar-gamma-accepted"] = (True, nonscalar_oracle(T, spec, "legacy_approx", smp))
     except Exception as e:
         res["legacy.ConjugateApprox|nonscalar-gamma-accepted"] = (False, "refused: %s" % str(e)[:100])
+    # hyper-parameter named like another mutable attribute (C01's conditioning defect seen from the samplers)
+    for iface in ("exp", "legacy"):
+        sg = "%s|hyperparameter-named-like-another-attribute" % site(iface)
+        spec = _wit_spec(fam="gaussian", dep=scalar_dep(V()))
+        spec["prior"] = dict(spec["prior"], name="mean")
+        spec["mean"] = ["1", "2", "0", "-1"]
+        try:
+            T = build_target(spec)
+            val, ga, *_ = draw(iface, construct(iface, T))
+            orc = oracle_sample(T, spec, ga[0], 1.0 / ga[1])
+            bad = orc["form_fail"] or orc["shape_fail"] or orc["rate_fail"]
+            res[sg] = (bool(bad), bad or "draw is exact")
+        except Exception as e:
+            res[sg] = (False, "refused: %s" % str(e)[:100])
     # a refused re-assignment must not leave the refused target in the sampler object
     for iface in ("exp", "approx"):
         sg = "%s|refused-target-retained" % site(iface)
@@ -1677,6 +1961,8 @@ def classify(meta, detail):
         return "%s|gamma-parameters" % site(iface)
     if op in ("direct", "direct_refusal"):
         return "exp.Direct|step-is-not-target-sample"
+    if op in ("composite", "composite-refusal", "default-size"):
+        return "C10|%s" % op
     return "C10"
 
 
